@@ -472,7 +472,9 @@ class Context:
             # Sort using Python's sort with custom key
             from functools import cmp_to_key
 
-            this._elements.sort(key=cmp_to_key(compare_fn))
+            # Sort a copy and write it back: the comparator may read or change the array
+            items = sorted(this._elements, key=cmp_to_key(compare_fn))
+            this._elements[: len(items)] = items
             return this
 
         array_prototype.set("sort", JSBoundMethod(array_sort))
